@@ -61,6 +61,10 @@ def unit_from_string(unit_str: str | None) -> pint.Unit | None:
             except Exception:
                 logger.warning(f"Invalid unit {unit_str!r}")
                 unit = None
+        except Exception:
+            # pint raises many different exceptions for text that is not a unit
+            logger.warning(f"Invalid unit {unit_str!r}")
+            unit = None
     else:
         unit = None
     return unit
